@@ -70,10 +70,11 @@ def apply_variant(sc, var):
             if k in ("id", "drop"):
                 continue
             if k == "closure":
-                cl = {c["ordinal"]: c for c in f.get("closure", [])}
+                key = lambda c: ("o", c["ordinal"]) if "ordinal" in c else ("b", c.get("body_contains"))
+                cl = {key(c): c for c in f.get("closure", [])}
                 for c in v:
-                    cl[c["ordinal"]] = c
-                f["closure"] = [cl[k2] for k2 in sorted(cl)]
+                    cl[key(c)] = c
+                f["closure"] = list(cl.values())
             else:
                 f[k] = v
     return sc
